@@ -71,23 +71,25 @@ def rule_args(rules: Sequence[Tuple[str, str]], rng: random.Random | None = None
     return out
 
 
-def make_options(rules: Sequence[Tuple[str, str]], full: bool, rng: random.Random | None = None) -> Any:
-    """Options carrying the rules: through the real command-line parser (full) or assembled from rules each parsed
-    once by the real parser (fast path for the large tables)."""
+def make_options(rules: Sequence[Tuple[str, str]], rng: random.Random | None = None) -> Any:
+    """Options carrying the rules, ALWAYS built by the real option pipeline (Options.from_args on the --privacy
+    arguments in the order given: parsing, conversion of the whole list, attrs construction). One parse per distinct
+    argument list; a System gets its own shallow copy."""
     from pydoctor.options import Options
-    if full:
-        return Options.from_args(rule_args(rules, rng))
-    if "defaults" not in _parsed_rule:
-        _parsed_rule["defaults"] = Options.defaults()        # 2 ms each: parse once, copy
-    o = copy.copy(_parsed_rule["defaults"])
-    privacy = []
-    for lv, pat in rules:
-        key = f"{lv}:{pat}"
-        if key not in _parsed_rule:
-            _parsed_rule[key] = Options.from_args([f"--privacy={key}"]).privacy[0]
-        privacy.append(_parsed_rule[key])
-    o.privacy = privacy
-    return o
+    args = tuple(rule_args(rules, rng))
+    if args not in _parsed_rule:
+        _parsed_rule[args] = Options.from_args(list(args))
+    return copy.copy(_parsed_rule[args])
+
+
+def observe_cache(system: Any) -> Dict[str, str] | None:
+    """System._privacyClassCache as {qualified name: level} when it has that shape, else None: the cache is a private
+    attribute, its representation is not part of the property and is never required (behaviour is judged through
+    privacyClass()/isVisible answers only)."""
+    c = getattr(system, "_privacyClassCache", None)
+    if not isinstance(c, dict) or not all(isinstance(k, str) and hasattr(v, "name") for k, v in c.items()):
+        return None
+    return {k: str(v.name) for k, v in c.items()}
 
 
 def build_objects(system: Any, names: Sequence[str]) -> Dict[str, Any]:
@@ -114,10 +116,10 @@ def build_objects(system: Any, names: Sequence[str]) -> Dict[str, Any]:
     return objs
 
 
-def real_rules_row(rules: Sequence[Tuple[str, str]], names: Sequence[str], full: bool,
+def real_rules_row(rules: Sequence[Tuple[str, str]], names: Sequence[str],
                    rng: random.Random | None = None) -> List[str]:
     from pydoctor import model
-    system = model.System(make_options(rules, full, rng))
+    system = model.System(make_options(rules, rng))
     objs = build_objects(system, names)
     got = []
     for n in names:
@@ -282,8 +284,7 @@ def part_rules(ctx: Ctx, rng: random.Random) -> int:
     lists: List[Tuple[Tuple[str, str], ...]] = [t for m in range(maxrules + 1) for t in itertools.product(universe, repeat=m)]
     rows = []
     for i, rl in enumerate(lists):
-        full = len(rl) <= 2 and (ctx.quick or i % 7 == 0) or i % 50 == 0
-        rows.append({"rules": rules_json(rl), "ns": 1, "res": real_rules_row(rl, RULE_NAMES, full, rng)})
+        rows.append({"rules": rules_json(rl), "ns": 1, "res": real_rules_row(rl, RULE_NAMES, rng)})
     table = {"namesets": [[list(n) for n in RULE_NAMES]], "universe": rules_json(universe), "maxrules": maxrules,
              "rows": rows}
     reports = run_table(ctx, "rules", table, exhaustive=True, tag="exhaustive")
@@ -293,6 +294,21 @@ def part_rules(ctx: Ctx, rng: random.Random) -> int:
     nontrivial = (len(rows) - 1) * len(RULE_NAMES)
     ctx.extra["rule_tables"] = [{"space": f"all rule lists <= {maxrules} over {len(universe)} rules",
                                  "rule_lists": len(rows), "names": len(RULE_NAMES)}]
+
+    # every list up to 3 rules over a SMALL rule alphabet: contains every repetition of an identical rule around a
+    # conflicting one ([PUBLIC:a.c, HIDDEN:a.c, PUBLIC:a.c] - "the one given last wins" also when it was given before)
+    small = [(lv, p) for p in ("a.c", "a.*", "**._m") for lv in LEVELS]
+    lists3 = [t for m in range(4) for t in itertools.product(small, repeat=m)]
+    rows = [{"rules": rules_json(rl), "ns": 1, "res": real_rules_row(rl, RULE_NAMES, rng)} for rl in lists3]
+    table = {"namesets": [[list(n) for n in RULE_NAMES]], "universe": rules_json(small), "maxrules": 3, "rows": rows}
+    reports = run_table(ctx, "rules", table, exhaustive=True, tag="repeat3")
+    judge_rules_reports(ctx, reports, [RULE_NAMES], "repeat3")
+    ctx.traces += len(rows)
+    ctx.evaluations += len(rows) * len(RULE_NAMES)
+    nontrivial += (len(rows) - 1) * len(RULE_NAMES)
+    ctx.extra["rule_tables"].append({"space": f"all rule lists <= 3 over {len(small)} rules (repetitions of identical rules)",
+                                     "rule_lists": len(rows), "names": len(RULE_NAMES),
+                                     "lists_repeating_an_identical_rule": sum(1 for rl in lists3 if len(set(rl)) < len(rl))})
 
     # longer lists + random patterns (matcher and precedence together), sampled
     alpha = ["a", "b", "c", "m", "_", ".", ".", "*", "*", "?", "[", "]", "!"]
@@ -307,7 +323,7 @@ def part_rules(ctx: Ctx, rng: random.Random) -> int:
             else:
                 pat = "".join(rng.choice(alpha) for _ in range(rng.randint(1, 6)))
             rl.append((rng.choice(LEVELS), pat))
-        rows.append({"rules": rules_json(rl), "ns": 1, "res": real_rules_row(rl, names2, rng.random() < 0.2, rng)})
+        rows.append({"rules": rules_json(rl), "ns": 1, "res": real_rules_row(rl, names2, rng)})
     table = {"namesets": [[list(n) for n in names2]], "universe": [], "maxrules": 0, "rows": rows}
     reports = run_table(ctx, "rules", table, exhaustive=False, tag="sampled")
     judge_rules_reports(ctx, reports, [names2], "sampled")
@@ -319,7 +335,7 @@ def part_rules(ctx: Ctx, rng: random.Random) -> int:
 
     # negative control: one corrupted observation must be reported
     rl = (("HIDDEN", "a.*"), ("PUBLIC", "a.c"))
-    res = real_rules_row(rl, RULE_NAMES, True)
+    res = real_rules_row(rl, RULE_NAMES)
     k = RULE_NAMES.index("a.c")
     good = res[k]
     res[k] = "HIDDEN" if good != "HIDDEN" else "PUBLIC"
@@ -379,7 +395,7 @@ def observe_build(ctx: Ctx, rules: List[Tuple[str, str]], rng: random.Random) ->
     model.System.privacyClass, model.Documentable.reparent = pc, rep
     try:
         with contextlib.redirect_stdout(io.StringIO()):      # "moving 'pkg._impl.c' into 'pkg'"
-            system = model.System(make_options(rules, True, rng))
+            system = model.System(make_options(rules, rng))
             system.addPackage(root)
             system.process()
             for o in list(system.allobjects.values()):
@@ -428,7 +444,7 @@ def replay_behaviour(rec: Dict[str, Any], refs: Dict[str, str] | None) -> Dict[s
     """Run one behaviour of PrivacyCache.tla on a real System. Returns failed clauses + drift."""
     from pydoctor import model
     rules = [(r["lv"], "".join(r["pat"])) for r in rec["rules"]]
-    system = model.System(make_options(rules, False))
+    system = model.System(make_options(rules))
     mods = {}
     for m in ("a", "b"):
         mods[m] = model.Module(system, m)
@@ -461,14 +477,26 @@ def replay_behaviour(rec: Dict[str, Any], refs: Dict[str, str] | None) -> Dict[s
             bad.append({"step": i, "op": st["op"], "name": o.fullName(), "expected": st["exp"], "observed": real})
         elif real != st["got"]:
             drift.append({"step": i, "what": st["op"], "spec": st["got"], "real": real})
-    real_cache = {k: v.name for k, v in system._privacyClassCache.items()}
+    real_cache = observe_cache(system)               # None: representation not the expected one, not looked into
     spec_cache = {"".join(e["k"]): e["v"] for e in rec["cache"]}
-    if refs is not None:
+    if refs is not None and real_cache is not None:
         for k, v in real_cache.items():
             if k in refs and refs[k] != v:       # CacheSound evaluated on the observed real cache
                 bad.append({"step": len(rec["h"]), "op": "cache", "name": k, "expected": refs[k], "observed": v})
-    if real_cache != spec_cache and not bad:
+    if real_cache is not None and real_cache != spec_cache and not bad:
         drift.append({"what": "cache", "spec": spec_cache, "real": real_cache})
+    if refs is not None:
+        # ObservedRight as the spec states it, on the real final state and through behaviour only: what a query
+        # answers NOW is the documented privacy of the object's CURRENT qualified name, whatever was asked before
+        for tag, o in objs.items():
+            try:
+                real = o.privacyClass.name
+            except Exception as ex:
+                real = "raised " + type(ex).__name__
+            want = refs.get(o.fullName())
+            if want is not None and real != want and not bad:
+                bad.append({"step": len(rec["h"]), "op": "query", "name": o.fullName(), "expected": want, "observed": real,
+                            "final_sweep": tag})
     return {"bad": bad, "drift": drift}
 
 
@@ -511,7 +539,7 @@ def part_cache(ctx: Ctx) -> int:
             hist = [[st["op"], st["o"], st["mod"], "".join(st["nm"])] for st in rec["h"]]
             ctx.violation({"invariant": "ObservedRight" if b["op"] == "query" else
                            ("VisibleRight" if b["op"] == "visible" else "CacheSound"),
-                           "kind": "cache", "behaviour": rec, "failed": out["bad"],
+                           "kind": "cache", "behaviour": rec, "refs": refs[rec["rid"] - 1], "failed": out["bad"],
                            "expected": b["expected"], "observed": b["observed"],
                            "key": f"cache:{rec['rid']}:{b['op']}:{b['name']}:{[h[0] for h in hist]}"})
         for d in out["drift"]:
@@ -538,6 +566,13 @@ def part_cache(ctx: Ctx) -> int:
     ctx.extra.setdefault("negative_control", {})["identity_keyed_cache_violates_model_invariant"] = okc
     if not okc:
         raise MachineryError("negative control (cache keyed by object identity) was not rejected by TLC")
+    # second control: keyed by object, reparent() forgets the moved object only (members keep their old privacy)
+    r3 = ctx.tlc("PrivacyCache", CACHE_CFG.format(moves=1, depth=3, key="objectPop", emit=""), workers=4, count=False,
+                 timeout=600)
+    okc = "ObservedRight" in r3.violated
+    ctx.extra["negative_control"]["object_keyed_cache_forgetting_only_the_moved_object_violates_model_invariant"] = okc
+    if not okc:
+        raise MachineryError("negative control (object-keyed cache, entry of the moved object dropped) was not rejected by TLC")
     return nontrivial
 
 
@@ -583,13 +618,13 @@ def replay(ctx: Ctx, path: str) -> int:
                     bad.append({n: (i + 1) in row["m"]})
     elif w.get("kind") == "rules":
         rules = [tuple(r) for r in w["rules"]]
-        got = real_rules_row(rules, w["names"], True)
+        got = real_rules_row(rules, w["names"])
         bad = [{n: g} for n, g, e in zip(w["names"], got, w["expected"]) if g != e]
     elif w.get("kind") == "build":
         names, res, _ = observe_build(ctx, [tuple(r) for r in w["rules"]], random.Random(w.get("seed", 0)))
         bad = sorted({(n, g) for n, g in zip(names, res) if n in w["expected"] and w["expected"][n] != g})
     elif w.get("kind") == "cache":
-        bad = replay_behaviour(w["behaviour"], None)["bad"]
+        bad = replay_behaviour(w["behaviour"], w.get("refs"))["bad"]
     else:
         raise MachineryError("unknown witness kind")
     print("replay:", f"still violated: {bad}" if bad else "holds now")
